@@ -143,6 +143,28 @@ func (fr *Frame) call(instr ssa.Instruction, cc *ssa.CallCommon, pos token.Pos) 
 			}
 		}
 	}
+	if c := fr.C; c != nil && len(c.OnCalls) > 0 {
+		for _, oc := range c.OnCalls {
+			if !nameMatches(names, oc.Callee) {
+				continue
+			}
+			vars := map[string]EV{}
+			for i, a := range fr.callArgVals(cc) {
+				vars[fmt.Sprintf("$%d", i)] = valToEV(a, fr.argType(cc, i))
+			}
+			ctx := fr.ctxHere().with(vars)
+			sig := cc.Signature()
+			if res.Tuple != nil {
+				for i, r := range res.Tuple {
+					ctx.results = append(ctx.results, valToEV(r, sig.Results().At(i).Type()))
+				}
+			} else if sig.Results().Len() == 1 {
+				ctx.results = []EV{valToEV(res, sig.Results().At(0).Type())}
+			}
+			v := ctx.Eval(oc.E)
+			fr.st.ghost["gv."+oc.Var] = fr.define("gv."+oc.Var, ctx.term(v))
+		}
+	}
 	if c := fr.C; c != nil {
 		for _, sn := range c.Snaps {
 			if nameMatches(names, sn.Callee) {
